@@ -473,6 +473,33 @@ class C18(Property):
                          "annotations": {"molecule_type": "DNA", "organism": f"org {i}"}, "description": f"desc {i}"})
         return spec
 
+    @staticmethod
+    def colliding_ids(rng: random.Random) -> List[str]:
+        """record ids that are pairwise different as given but meet once fix_record_name_id rewrites them"""
+        stem = rng.choice(["Streptomyces", "Kitasatospora", "Micromonospora_sp"])
+        number = rng.choice([1, 7, 12, 345])
+        families = [
+            # over-long ids shortening to the same c000NN_prefix.. name
+            [f"{stem}_A1.contig{number}", f"{stem}_A2.contig{number}", f"{stem}_B7.contig{number}"],
+            [f"{stem}_plasmid_x_scaffold{number}", f"{stem}_plasmid_y_scaffold{number}"],
+            # equal once the illegal characters are stripped
+            [f"scaffold({number})", f"scaffold[{number}]", f"scaffold{number}"],
+            [f"ctg:{number}", f"ctg;{number}", f"c,t,g{number}"],
+            # RefSeq accessions differing in the version only
+            [f"NZ_AMZN0100{number:04d}0.1", f"NZ_AMZN0100{number:04d}0.2"],
+            # over-long and dirty at once
+            [f"{stem}(strain 1) contig{number}", f"{stem}(strain 2) contig{number}"],
+            # a shortened name that is already somebody's id
+            [f"c{number:05d}_{stem[:7]}..", f"{stem[:7]}_long_name.contig{number}"],
+        ]
+        ids = list(rng.choice(families))
+        if rng.random() < 0.5:
+            ids += rng.choice(families)[:2]
+        ids += [f"plain{rng.randrange(100)}"] * rng.choice([0, 1, 1, 2])
+        rng.shuffle(ids)
+        # exact duplicates are fine (uniquePass), but keep at least two records
+        return ids if len(ids) >= 2 else ids + ["other"]
+
     def real_cases(self, rng: random.Random, tier: str, deep: bool) -> List[Dict[str, Any]]:
         thorough = tier == "thorough"
         all_cpus = list(range(1, 17))
@@ -548,6 +575,18 @@ class C18(Property):
                 dup[-1]["id"] = dup[0]["id"]
                 cases.append({"kind": "prep", "cpus": k, "records": dup + rich})
                 cases.append({"kind": "prep", "cpus": k, "records": failing})
+        # identifiers that only collide AFTER rewriting: the shared id set must be threaded through all records
+        for k in ([2, 3, 4, 8, 16] if thorough else [2, rng.choice([3, 4, 6])]):
+            for rep in range(3 if thorough else 2):
+                ids = self.colliding_ids(rng)
+                records = []
+                for i, rid in enumerate(ids):
+                    spec = self.rand_record(rng, i, False, rng.choice([120, 300]), rich=False)
+                    spec["id"] = rid
+                    spec["name"] = rid if rng.random() < 0.7 else f"name{i}"
+                    records.append(spec)
+                cases.append({"kind": "prep", "cpus": k, "records": records, "minlength": 1,
+                              "allow_long_headers": rng.random() < 0.3})
         # parallel_execute with real children
         for k in ([1, 2, 5, 16] if thorough else [1, 3]):
             codes = [rng.choice([0, 0, 1, 3, 7]) for _ in range(rng.choice([k, k + 1, 2 * k + 1]))]
